@@ -353,6 +353,9 @@ func (c *Collection) WriteCas(key string, exp Exp, cas CAS, val any, opt sgbucke
 		if wasTombstone && cas != 0 && (opt&sgbucket.Append) != 0 {
 			return nil, sgbucket.MissingError{Key: key} // there is no body to append to
 		}
+		if err == nil && !wasTombstone && opt&sgbucket.AddOnly != 0 && opt&sgbucket.Append != 0 {
+			return nil, sgbucket.ErrKeyExists // AddOnly holds with Append too: the key has a value
+		}
 		revSeqNo++
 		exp = absoluteExpiry(exp)
 		var sql string
